@@ -77,6 +77,11 @@ func compare(ref *sqlref.Rel, res *mysql.Result) verdict {
 	if res == nil || res.Resultset == nil {
 		return verdict{kind: "no_resultset", detail: "no result set returned"}
 	}
+	if len(res.RowDatas) == 0 && len(res.Values) == 0 && emptyWindow(ref) {
+		// no rows on either side: the property speaks about rows, not about the column
+		// metadata of an empty answer
+		return verdict{ok: true}
+	}
 	if len(res.Fields) != ncol {
 		return verdict{kind: "column_count", detail: fmt.Sprintf("%d columns, reference has %d", len(res.Fields), ncol)}
 	}
@@ -140,6 +145,14 @@ func compare(ref *sqlref.Rel, res *mysql.Result) verdict {
 		}
 	}
 	return verdict{kind: kind, detail: detail()}
+}
+
+func emptyWindow(ref *sqlref.Rel) bool {
+	n := int64(len(ref.Rows))
+	if !ref.HasLimit {
+		return n == 0
+	}
+	return ref.Count == 0 || ref.Offset >= n
 }
 
 func min64(a, b int64) int64 {
